@@ -167,6 +167,7 @@ assert ( wstream ( word @ , i0 + 1 , * bitbuf , * bufbits as int ) =~= wstream (
 
 
 
+
 fn maybe_fill_bitbuf ( bitbuf : & mut u64 , bufbits : & mut u8 , words : & [ u32 ] , word_index : & mut usize , minbits : u8 , ) requires
 /*@C14.cpc.bits.fill_in_bounds*/ * old ( bufbits ) < minbits ==> * old ( word_index ) < words @ . len ( ) , minbits <= 32 , buf_clean ( * old ( bitbuf ) , * old ( bufbits ) as int ) , ensures
 /*@C13.cpc.bits.fill*/ rstream ( words @ , * final ( word_index ) as int , * final ( bitbuf ) , * final ( bufbits ) as int ) == rstream ( words @ , * old ( word_index ) as int , * old ( bitbuf ) , * old ( bufbits ) as int ) , * final ( bufbits ) >= minbits , * old ( bufbits ) < minbits ==> * final ( bufbits ) == * old ( bufbits ) + 32 && * final ( word_index ) == * old ( word_index ) + 1 , * old ( bufbits ) >= minbits ==> * final ( bufbits ) == * old ( bufbits ) && * final ( word_index ) == * old ( word_index ) && * final ( bitbuf ) == * old ( bitbuf ) , buf_clean ( * final ( bitbuf ) , * final ( bufbits ) as int ) , {
@@ -192,6 +193,7 @@ assert ( rstream ( words @ , i0 + 1 , * bitbuf , * bufbits as int ) =~= rstream 
 }
 }
 }
+
 
 
 
@@ -231,6 +233,7 @@ let the_unary_code = 1 << remaining ;
 * bufbits += ( remaining + 1 ) as u8 ;
 maybe_flush_bitbuf ( bitbuf , bufbits , compressed_words , next_word_index ) ;
 }
+
 
 
 
@@ -316,6 +319,7 @@ assert ( rstream ( compressed_words @ , * next_word_index as int , * bitbuf , * 
 
 
 
+
 // C11 for the unary code: what write_unary appends is what read_unary consumes, and it returns the value
 proof fn lemma_unary_roundtrip(v: int, rest: Seq<bool>)
   requires 0 <= v
@@ -371,10 +375,25 @@ proof fn lemma_peek12_lt(s: Seq<bool>) ensures peek12(s) < 4096 {
         | (if c6 { 64u64 } else { 0 }) | (if c7 { 128u64 } else { 0 }) | (if c8 { 256u64 } else { 0 }) | (if c9 { 512u64 } else { 0 }) | (if c10 { 1024u64 } else { 0 }) | (if c11 { 2048u64 } else { 0 })) < 4096) by (bit_vector);
 }
 // the exec peek `bitbuf & 0xfff` is peek12 of any stream whose first 12 bits are the low 12 bits of the buffer
+// ---------- bridges between the two spellings of a mask / shift by a power of two: a behaviour-preserving edit may write `x % 0x1000` for
+// `x & 0xfff`, `x / 64` for `x >> 6`, ...; the per-value lemmas below state their facts for BOTH spellings (benign/B6_7) ----------
+proof fn lemma_bridge_u64(x: u64) ensures x % 0x1000 == x & 0xfff, x % 256 == x & 0xff, x % 0x1_0000_0000 == x & 0xffffffff, x / 0x1_0000_0000 == x >> 32, x / 256 == x >> 8 {
+    assert(x % 0x1000 == x & 0xfff && x % 256 == x & 0xff && x % 0x1_0000_0000 == x & 0xffffffff && x / 0x1_0000_0000 == x >> 32 && x / 256 == x >> 8) by (bit_vector);
+}
+proof fn lemma_bridge_u32(x: u32) ensures x % 64 == x & 63, x / 64 == x >> 6 {
+    assert(x % 64 == x & 63 && x / 64 == x >> 6) by (bit_vector);
+}
+proof fn lemma_bridge_u16(e: u16) ensures e % 0x1000 == e & 0xfff, e / 0x1000 == e >> 12, e % 256 == e & 0xff, e / 256 == e >> 8 {
+    assert(e % 0x1000 == e & 0xfff && e / 0x1000 == e >> 12 && e % 256 == e & 0xff && e / 256 == e >> 8) by (bit_vector);
+}
+proof fn lemma_bridge_u8(c: u8) ensures c % 64 == c & 63 {
+    assert(c % 64 == c & 63) by (bit_vector);
+}
 proof fn lemma_peek12_of_buf(b: u64, s: Seq<bool>)
   requires s.len() >= 12, forall|i: int| 0 <= i < 12 ==> (#[trigger] s[i]) == bit64(b, i)
-  ensures (b & 0xfff) == peek12(s), (b & 0xfff) < 4096
+  ensures (b & 0xfff) == peek12(s), (b & 0xfff) < 4096, (b % 0x1000) == (b & 0xfff)
 {
+    lemma_bridge_u64(b);
     reveal(ors12);
     let (c0, c1, c2, c3, c4, c5, c6, c7, c8, c9, c10, c11) = (s[0], s[1], s[2], s[3], s[4], s[5], s[6], s[7], s[8], s[9], s[10], s[11]);
     assert(c0 == bit64(b, 0) && c1 == bit64(b, 1) && c2 == bit64(b, 2) && c3 == bit64(b, 3) && c4 == bit64(b, 4) && c5 == bit64(b, 5));
@@ -505,12 +524,15 @@ proof fn lemma_buf_append(b: u64, n: int, v: u64, m: int)
     }
 }
 proof fn lemma_enc_entry(e: u16) requires enc_entry_ok(e)
-  ensures ((e >> 12) as u8) == enc_len(e), 1 <= enc_len(e) <= 12, buf_clean(enc_val(e), enc_len(e)), code_bits(e).len() == enc_len(e), ((e & 0xfff) as u64) == enc_val(e)
+  ensures ((e >> 12) as u8) == enc_len(e), 1 <= enc_len(e) <= 12, buf_clean(enc_val(e), enc_len(e)), code_bits(e).len() == enc_len(e), ((e & 0xfff) as u64) == enc_val(e),
+    e % 0x1000 == e & 0xfff, e / 0x1000 == e >> 12
 {
+    lemma_bridge_u16(e);
     let l = e >> 12; let v = (e & 0xfff) as u64; let lu = enc_len(e) as u64;
     assert((v >> lu) == 0) by (bit_vector) requires v == (e & 0xfff) as u64, lu == (e >> 12) as u64, ((e & 0xfff) >> (e >> 12)) == 0;
 }
-proof fn lemma_dec_entry(e: u16) requires dec_entry_ok(e) ensures ((e >> 8) as u8) == (e >> 8), 1 <= ((e >> 8) as u8) <= 12, (e & 0xff) < 256 {
+proof fn lemma_dec_entry(e: u16) requires dec_entry_ok(e) ensures ((e >> 8) as u8) == (e >> 8), 1 <= ((e >> 8) as u8) <= 12, (e & 0xff) < 256, e % 256 == e & 0xff, e / 256 == e >> 8 {
+    lemma_bridge_u16(e);
     assert((e & 0xff) < 256) by (bit_vector);
 }
 proof fn lemma_enc_bytes_push(enc: Seq<u16>, bytes: Seq<u8>, i: int) requires 0 <= i < bytes.len()
@@ -571,6 +593,7 @@ proof fn lemma_bytes_roundtrip(enc: Seq<u16>, dec: Seq<u16>, bytes: Seq<u8>, res
 
 struct CompressedState {
 table_data : Vec < u32 > , table_data_words : usize , table_num_entries : u32 , window_data : Vec < u32 > , window_data_words : usize , }
+
 
 
 proof fn lemma_zeros_add(a: int, b: int) requires a >= 0, b >= 0 ensures zeros(a) + zeros(b) == zeros(a + b) { assert(zeros(a) + zeros(b) =~= zeros(a + b)); }
@@ -692,6 +715,7 @@ lemma_no_last_word ( self . window_data @ , next_word_index as int , bitbuf , st
 }
 next_word_index }
 
+
 }
 
 // Huffman decoder of the window bytes.  decoding_table is one row of DECODING_TABLES_FOR_HIGH_ENTROPY_BYTE.
@@ -759,6 +783,7 @@ assert ( byte_array @ . take ( n ) + Seq :: < u8 > :: empty ( ) =~= byte_array @
 }
 debug_assert! ( word_index <= num_compressed_words ) ;
 }
+
 
 
 // =====================================================================================================================
@@ -879,8 +904,10 @@ proof fn lemma_deltas(pairs: Seq<u32>, i: int) requires pairs_ascending(pairs), 
     (pairs[i] & 63) <= 63, prev_col(pairs, i) <= 64, x_delta_of(pairs, i) <= 63,
     y_delta_of(pairs, i) == (pairs[i] >> 6) - prev_row(pairs, i),
     x_delta_of(pairs, i) == (pairs[i] & 63) - (if (pairs[i] >> 6) != prev_row(pairs, i) { 0 } else { prev_col(pairs, i) as int }),
+    pairs[i] % 64 == pairs[i] & 63, pairs[i] / 64 == pairs[i] >> 6,
 {
     let b = pairs[i];
+    lemma_bridge_u32(b);
     assert((b & 63) <= 63) by (bit_vector);
     if i > 0 {
         let a = pairs[i - 1];
@@ -1087,9 +1114,10 @@ lemma_no_last_word ( self . table_data @ , next_word_index as int , bitbuf , str
 }
 next_word_index }
 
+
 }
 
-proof fn lemma_llu_entry(e: u16) requires dec_entry_ok(e), (e & 0xff) <= 64 ensures ((e >> 8) as u8) == (e >> 8), 1 <= ((e >> 8) as u8) <= 12, ((e & 0xff) as u8) == (e & 0xff), ((e & 0xff) as u8) <= 64 {}
+proof fn lemma_llu_entry(e: u16) requires dec_entry_ok(e), (e & 0xff) <= 64 ensures ((e >> 8) as u8) == (e >> 8), 1 <= ((e >> 8) as u8) <= 12, ((e & 0xff) as u8) == (e & 0xff), ((e & 0xff) as u8) <= 64, e % 256 == e & 0xff, e / 256 == e >> 8 { lemma_bridge_u16(e); }
 proof fn lemma_shift_u8(b: u64, sh: u8) ensures (b >> sh) == (b >> (sh as u64)), (b << sh) == (b << (sh as u64)) {
     let s64 = sh as u64;
     assert((b >> sh) == (b >> s64) && (b << sh) == (b << s64)) by (bit_vector) requires s64 == sh as u64;
@@ -1221,6 +1249,7 @@ debug_assert! ( word_index <= num_compressed_words ) ;
 }
 
 
+
 proof fn lemma_pair_recompose(p: u32) ensures (((p >> 6) << 6) | (p & 63)) == p, (p & 63) <= 63 {
     assert((((p >> 6) << 6) | (p & 63)) == p && (p & 63) <= 63) by (bit_vector);
 }
@@ -1326,9 +1355,11 @@ quotient + 1 }
 
 
 
+
 fn safe_length_for_compressed_window_buf ( k : u32 ) -> ( r : usize ) requires 12 * k + 11 <= 0xffff_ffff ensures r == ( 12 * k + 11 + 31 ) / 32 {
 let bits = 12 * k + 11 ;
 divide_longs_rounding_up ( bits as usize , 32 ) }
+
 
 
 
@@ -1367,6 +1398,7 @@ y <<= 1 ;
 }
 }
 }
+
 
 
 
@@ -1418,6 +1450,7 @@ floor_log2_of_long ( quotient ) }
 
 
 
+
 fn safe_length_for_compressed_pair_buf ( k : u32 , num_pairs : u32 , num_base_bits : u8 ) -> ( r : usize ) requires num_base_bits < 64 ensures r == ( 12 * num_pairs + num_pairs * ( 1 + num_base_bits ) + ( k as usize >> ( num_base_bits as usize ) ) + ( if num_base_bits >= 10 {
 0int }
 else {
@@ -1434,6 +1467,7 @@ let ybits = num_pairs * ( 1 + num_base_bits ) + ( k >> num_base_bits ) ;
 let xbits = 12 * ( num_pairs ) ;
 let padding = 10usize . saturating_sub ( num_base_bits ) ;
 divide_longs_rounding_up ( xbits + ybits + padding , 32 ) }
+
 
 
 
@@ -1503,6 +1537,7 @@ assert ( ( t & 15 ) < 16 && t & 15 == t % 16 && t & 15 == 15 & t ) by ( bit_vect
 
 
 
+
 // =====================================================================================================================
 // The two halves of a compressed sketch image.  `words` = the first *_data_words words of *_data (what serialize writes and
 // deserialize hands to uncompress).
@@ -1564,6 +1599,14 @@ proof fn lemma_flog2_bound(x: int, r: nat) requires x < pow2(r + 1) ensures 0 <=
         if r == 0 { assert(pow2(1) == 2); } else { lemma_pow2_unfold(r + 1); lemma_flog2_bound(x / 2, (r - 1) as nat); }
     }
 }
+// the table buffer length fits the u32 word-count field of the image (C18.cpc.coder_table_words_u32)
+proof fn lemma_table_len_u32(nbb: int, n: int, k: u32) requires 0 <= nbb <= 26, 0 <= n <= 0x8000_0000, k <= 0x400_0000
+  ensures (pairs_bits_bound(nbb, n, k) + pad_bits(nbb) + 31) / 32 <= 0xffff_ffff
+{
+    assert(n * (1 + nbb) <= n * 27) by (nonlinear_arith) requires 0 <= nbb <= 26, n >= 0;
+    let k64 = k as u64; let s = nbb as u64;
+    assert((k64 >> s) <= k64) by (bit_vector);
+}
 proof fn lemma_ceil32(x: int) requires x >= 0 ensures 32 * ((x + 31) / 32) >= x, 32 * ((x + 31) / 32) < x + 32 {}
 proof fn lemma_shr_usize_u64(k: u32, nbb: u8) requires nbb < 64 ensures ((k as usize) >> (nbb as usize)) == ((k as u64) >> (nbb as u64)) {
     let a = k as usize; let b = k as u64; let s = nbb as usize; let t = nbb as u64;
@@ -1573,7 +1616,8 @@ proof fn lemma_shr_usize_u64(k: u32, nbb: u8) requires nbb < 64 ensures ((k as u
 impl CompressedState {
     fn compress_surprising_values ( & mut self , pairs : & [ u32 ] , lg_k : u8 ) requires 4 <= lg_k <= 26 ,
 /*@C17.cpc.coder_pairs_nonempty*/ 1 <= pairs @ . len ( ) , pairs @ . len ( ) <= 0x8000_0000 ,
-/*@C17.cpc.coder_pairs_sorted*/ pairs_ascending ( pairs @ ) , rows_below ( pairs @ , k_of ( lg_k ) ) , ensures final ( self ) . window_data == old ( self ) . window_data , final ( self ) . window_data_words == old ( self ) . window_data_words , final ( self ) . table_num_entries == pairs @ . len ( ) , final ( self ) . table_data_words <= final ( self ) . table_data @ . len ( ) , final ( self ) . table_data @ . len ( ) > 0 ,
+/*@C17.cpc.coder_pairs_sorted*/ pairs_ascending ( pairs @ ) , rows_below ( pairs @ , k_of ( lg_k ) ) , ensures
+/*@C18.cpc.coder_table_words_u32*/ final ( self ) . table_data @ . len ( ) <= 0xffff_ffff , final ( self ) . window_data == old ( self ) . window_data , final ( self ) . window_data_words == old ( self ) . window_data_words , final ( self ) . table_num_entries == pairs @ . len ( ) , final ( self ) . table_data_words <= final ( self ) . table_data @ . len ( ) , final ( self ) . table_data @ . len ( ) > 0 ,
 /*@C18.cpc.coder_table_buf_len*/ final ( self ) . table_data @ . len ( ) == ( pairs_bits_bound ( golomb_nbb ( k_of ( lg_k ) + pairs @ . len ( ) , pairs @ . len ( ) as int ) , pairs @ . len ( ) as int , k_of ( lg_k ) as u32 ) + pad_bits ( golomb_nbb ( k_of ( lg_k ) + pairs @ . len ( ) , pairs @ . len ( ) as int ) ) + 31 ) / 32 ,
 /*@C12.cpc.coder_table_image*/ is_pairs_image ( final ( self ) . table_data @ . take ( final ( self ) . table_data_words as int ) , golomb_nbb ( k_of ( lg_k ) + pairs @ . len ( ) , pairs @ . len ( ) as int ) , pairs @ ) , {
 proof {
@@ -1596,6 +1640,7 @@ assert ( last == pairs @ [ n - 1 ] >> 6 ) ;
 lemma_shr_mono ( last , k , nbb ) ;
 lemma_shr_usize_u64 ( k , num_base_bits ) ;
 lemma_ceil32 ( pairs_bits_bound ( nbb , n , k ) + pad_bits ( nbb ) ) ;
+lemma_table_len_u32 ( nbb , n , k ) ;
 }
 let compressed_surprising_values = self . low_level_compress_pairs ( pairs , num_base_bits ) ;
 self . table_data_words = compressed_surprising_values ;
@@ -1606,7 +1651,9 @@ lemma_words_bits_len ( self . table_data @ . take ( self . table_data_words as i
 }
 
 
-    fn compress_sliding_window ( & mut self , window : & [ u8 ] , lg_k : u8 , num_coupons : u32 ) requires 4 <= lg_k <= 26 , window @ . len ( ) >= k_of ( lg_k ) , ensures final ( self ) . table_data == old ( self ) . table_data , final ( self ) . table_data_words == old ( self ) . table_data_words , final ( self ) . table_num_entries == old ( self ) . table_num_entries , final ( self ) . window_data_words <= final ( self ) . window_data @ . len ( ) , final ( self ) . window_data @ . len ( ) > 0 ,
+
+    fn compress_sliding_window ( & mut self , window : & [ u8 ] , lg_k : u8 , num_coupons : u32 ) requires 4 <= lg_k <= 26 , window @ . len ( ) >= k_of ( lg_k ) , ensures
+/*@C18.cpc.coder_window_words_u32*/ final ( self ) . window_data @ . len ( ) <= 0xffff_ffff , final ( self ) . table_data == old ( self ) . table_data , final ( self ) . table_data_words == old ( self ) . table_data_words , final ( self ) . table_num_entries == old ( self ) . table_num_entries , final ( self ) . window_data_words <= final ( self ) . window_data @ . len ( ) , final ( self ) . window_data @ . len ( ) > 0 ,
 /*@C18.cpc.coder_window_buf_len*/ final ( self ) . window_data @ . len ( ) == ( 12 * k_of ( lg_k ) + 11 + 31 ) / 32 ,
 /*@C12.cpc.coder_window_image*/ is_window_image ( final ( self ) . window_data @ . take ( final ( self ) . window_data_words as int ) , pseudo_phase_spec ( lg_k , num_coupons ) , window @ . take ( k_of ( lg_k ) ) ) , {
 proof {
@@ -1627,6 +1674,7 @@ proof {
 lemma_words_bits_len ( self . window_data @ . take ( self . window_data_words as int ) ) ;
 }
 }
+
 
 }
 
@@ -1650,6 +1698,7 @@ assert ( pairs @ . take ( num_pairs as int ) =~= pairs @ ) ;
 pairs }
 
 
+
 fn uncompress_sliding_window ( data : & [ u32 ] , data_words : usize , window : & mut Vec < u8 > , lg_k : u8 , num_coupons : u32 , ) requires 4 <= lg_k <= 26 , data @ . len ( ) == data_words ,
 /*@C13.cpc.coder_window_stream_fits*/ dec_bytes_fits ( byte_dec ( pseudo_phase_spec ( lg_k , num_coupons ) ) , words_bits ( data @ ) , k_of ( lg_k ) ) , ensures
 /*@C13.cpc.coder_window_decoded*/ final ( window ) @ == dec_bytes ( byte_dec ( pseudo_phase_spec ( lg_k , num_coupons ) ) , words_bits ( data @ ) , k_of ( lg_k ) ) , final ( window ) @ . len ( ) == k_of ( lg_k ) , {
@@ -1668,6 +1717,7 @@ assert ( window @ . take ( k as int ) =~= window @ ) ;
 }
 
 
+
 // =====================================================================================================================
 // The flavor level: CompressedState::{compress_*_flavor, uncompress_*_flavor} as compositions of the two halves.
 // PairTable by contract (bodies proved in units cpc_pairtable / cpc_codec); the sketch enters through `coder_wf`, the part of
@@ -1678,21 +1728,54 @@ struct PairTable {
 lg_size : u8 , num_valid_bits : u8 , num_items : u32 , slots : Vec < u32 > , }
 
 
+
 struct UncompressedState {
 table : PairTable , window : Vec < u8 > , }
+
 
 
 enum Flavor {
 Empty , Sparse , Hybrid , Pinned , Sliding , }
 
 
+
 struct CpcSketch {
 lg_k : u8 , seed : u64 , seed_hash : u16 , first_interesting_column : u8 , num_coupons : u32 , surprising_value_table : Option < PairTable > , window_offset : u8 , sliding_window : Vec < u8 > , merge_flag : bool , kxp : f64 , hip_est_accum : f64 , }
 
 
+
+// the REAL invariant and view of PairTable, VERBATIM from contracts/cpc_pairtable.rs / contracts/cpc_codec.rs (the units that prove the
+// bodies of new / from_slots / unwrapping_get_items against it): the coder's proofs use them only through the three contracts below,
+// the definitions are here so that the clauses `r.table.wf()` / `r.table.items()` that unit cpc_codec assumes of `uncompress` are the
+// SAME predicates (refinement mapping for tools/linkprove.py).
+spec fn probe_at(p0: int, s: int, j: int, size: int) -> int { (p0 + j * s) % size }
+spec fn phome(item: u32, nvb: u8, lg: u8) -> int { (item >> ((nvb - lg) as u32)) as int }
+spec fn ppos(item: u32, nvb: u8, lg: u8, j: int, size: int) -> int { probe_at(phome(item, nvb, lg), 1, j, size) }
+spec fn pocc(ss: Seq<u32>) -> Set<int> { Set::range(0, ss.len() as int).filter(|i: int| ss[i] != EMPTY) }
+spec fn pfull_before(ss: Seq<u32>, item: u32, nvb: u8, lg: u8, j: int) -> bool {
+    forall|t: int| 0 <= t < j ==> ss[#[trigger] ppos(item, nvb, lg, t, ss.len() as int)] != EMPTY
+}
+spec fn preach_at(ss: Seq<u32>, nvb: u8, lg: u8, i: int) -> bool {
+    exists|j: int| 0 <= j < ss.len() && i == ppos(ss[i], nvb, lg, j, ss.len() as int) && #[trigger] pfull_before(ss, ss[i], nvb, lg, j)
+}
+spec fn pshape(ss: Seq<u32>, nvb: u8, lg: u8) -> bool { 2 <= lg <= 26 && lg < nvb <= 32 && ss.len() == pow2(lg as nat) }
+spec fn ptbl_ok(ss: Seq<u32>, nvb: u8, lg: u8) -> bool {
+    &&& pshape(ss, nvb, lg)
+    &&& forall|i: int| 0 <= i < ss.len() && ss[i] != EMPTY ==> (#[trigger] ss[i] as int) < pow2(nvb as nat)
+    &&& forall|i: int, j: int| 0 <= i < ss.len() && 0 <= j < ss.len() && i != j && ss[i] != EMPTY ==> ss[i] != ss[j]
+    &&& forall|i: int| 0 <= i < ss.len() && ss[i] != EMPTY ==> #[trigger] preach_at(ss, nvb, lg, i)
+}
+spec fn pholds(ss: Seq<u32>, item: u32) -> bool { exists|i: int| 0 <= i < ss.len() && ss[i] == item }
+
 impl PairTable {
-    uninterp spec fn wf(&self) -> bool;
-    uninterp spec fn items(&self) -> ISet<u32>;
+    #[verifier::opaque]
+    spec fn wf(&self) -> bool {
+        &&& ptbl_ok(self.slots@, self.num_valid_bits, self.lg_size)
+        &&& self.num_items == pocc(self.slots@).len()
+        &&& 4 * self.num_items <= 3 * self.slots@.len()
+    }
+    #[verifier::opaque]
+    spec fn items(&self) -> ISet<u32> { ISet::new(|c: u32| c != EMPTY && pholds(self.slots@, c)) }
     // contract VERBATIM from the one PROVED in contracts/cpc_pairtable.rs (C05.pairtable.new.*)
     #[verifier::external_body]
     fn new(lg_size: u8, num_valid_bits: u8) -> (r: Self)
@@ -1759,7 +1842,8 @@ proof fn lemma_ascending_distinct(a: Seq<u32>) requires pairs_ascending(a) ensur
 
 impl CpcSketch {
     spec fn k(&self) -> int { pow2(self.lg_k as nat) as int }
-    spec fn tbl(&self) -> ISet<u32> { self.surprising_value_table->0.items() }
+    // total form, VERBATIM as in contracts/cpc_core.rs / cpc_update.rs / cpc_codec.rs (equal to `table->0.items()` whenever the table is present, which coder_wf demands)
+    spec fn tbl(&self) -> ISet<u32> { if self.surprising_value_table is Some { self.surprising_value_table->0.items() } else { ISet::empty() } }
     // what the coder needs of a sketch with num_coupons > 0: the clauses of CpcSketch::wf_matrix (contracts/cpc_core.rs) about the table, plus
     // the capacity bound that PairTable::wf implies (contracts/cpc_pairtable.rs: 4 * num_items <= 3 * slots.len(), slots.len() = 2^lg_size <= 2^26)
     spec fn coder_wf(&self) -> bool {
@@ -1776,12 +1860,15 @@ impl CpcSketch {
 self . lg_k }
 
 
+
     fn num_coupons ( & self ) -> ( r : u32 ) ensures r == self . num_coupons {
 self . num_coupons }
 
 
+
     fn surprising_value_table ( & self ) -> ( r : & PairTable ) requires self . surprising_value_table is Some ensures * r == self . surprising_value_table -> 0 {
 self . surprising_value_table . as_ref ( ) . expect ( "" ) }
+
 
 }
 
@@ -1796,7 +1883,9 @@ impl CompressedState {
     spec fn window_words(&self) -> Seq<u32> { self.window_data@.take(self.window_data_words as int) }
 
     fn compress_sparse_flavor ( & mut self , source : & CpcSketch ) requires source . coder_wf ( ) , source . sliding_window @ . len ( ) == 0 ,
-/*@C17.cpc.coder_pairs_nonempty*/ source . surprising_value_table -> 0 . num_items >= 1 , ensures final ( self ) . window_data == old ( self ) . window_data , final ( self ) . window_data_words == old ( self ) . window_data_words , final ( self ) . table_data_words <= final ( self ) . table_data @ . len ( ) , final ( self ) . table_data @ . len ( ) > 0 ,
+/*@C17.cpc.coder_pairs_nonempty*/ source . surprising_value_table -> 0 . num_items >= 1 , ensures
+/*@C18.cpc.coder_table_words_u32*/ final ( self ) . table_data @ . len ( ) <= 0xffff_ffff ,
+/*@C12.cpc.coder_sparse_entries*/ final ( self ) . table_num_entries == source . surprising_value_table -> 0 . num_items , final ( self ) . window_data == old ( self ) . window_data , final ( self ) . window_data_words == old ( self ) . window_data_words , final ( self ) . table_data_words <= final ( self ) . table_data @ . len ( ) , final ( self ) . table_data @ . len ( ) > 0 ,
 /*@C12.cpc.coder_sparse_image*/ table_image_of ( final ( self ) . table_words ( ) , final ( self ) . table_num_entries , source . lg_k , source . tbl ( ) ) , {
 debug_assert! ( source . sliding_window . is_empty ( ) ) ;
 let mut pairs = source . surprising_value_table ( ) . unwrapping_get_items ( ) ;
@@ -1816,6 +1905,7 @@ assert ( pairs @ . contains ( pairs @ [ i ] ) ) ;
 }
 self . compress_surprising_values ( & pairs , source . lg_k ( ) ) ;
 }
+
 
 }
 
@@ -1874,6 +1964,7 @@ UncompressedState {
 table : PairTable :: from_slots ( lg_k , self . table_num_entries , pairs ) , window : vec! [ ] , }
 }
 
+
 }
 
 // C11 for the table half at the level of SETS: an image of the members of `set` (rows < k) is valid and decodes to exactly that set
@@ -1900,15 +1991,19 @@ proof fn lemma_table_image_roundtrip(c: CompressedState, lg_k: u8, set: ISet<u32
 spec fn shift_cols(set: ISet<u32>) -> ISet<u32> { ISet::new(|y: u32| y + 8 <= u32::MAX && set.contains((y + 8) as u32)) }
 // membership in the set a pinned table half decodes to: the decoded pairs plus 8
 spec fn unshift_has(d: Seq<u32>, x: u32) -> bool { x >= 8 && d.contains((x - 8) as u32) }
-proof fn lemma_minus8(p: u32) requires (p & 63) >= 8 ensures p >= 8, ((p - 8) as u32 >> 6) == (p >> 6), ((p - 8) as u32 & 63) == (p & 63) - 8, ((p - 8) as u32 & 63) < 56, (p - 8) as u32 != EMPTY {
+proof fn lemma_minus8(p: u32) requires (p & 63) >= 8 ensures p >= 8, ((p - 8) as u32 >> 6) == (p >> 6), ((p - 8) as u32 & 63) == (p & 63) - 8, ((p - 8) as u32 & 63) < 56, (p - 8) as u32 != EMPTY, p % 64 == p & 63, p / 64 == p >> 6 {
+    lemma_bridge_u32(p);
     assert((p & 63) >= 8 ==> p >= 8 && (sub(p, 8) >> 6) == (p >> 6) && (sub(p, 8) & 63) == sub(p & 63, 8) && (sub(p, 8) & 63) < 56 && (p & 63) <= 63 && sub(p, 8) != 0xffff_ffffu32) by (bit_vector);
 }
-proof fn lemma_plus8(p: u32) requires (p & 63) < 56 ensures p + 8 <= u32::MAX, ((p + 8) as u32 >> 6) == (p >> 6), ((p + 8) as u32 & 63) == (p & 63) + 8 {
+proof fn lemma_plus8(p: u32) requires (p & 63) < 56 ensures p + 8 <= u32::MAX, ((p + 8) as u32 >> 6) == (p >> 6), ((p + 8) as u32 & 63) == (p & 63) + 8, p % 64 == p & 63, p / 64 == p >> 6 {
+    lemma_bridge_u32(p);
     assert((p & 63) < 56 ==> p <= 0xffff_fff7 && (add(p, 8) >> 6) == (p >> 6) && (add(p, 8) & 63) == add(p & 63, 8)) by (bit_vector);
 }
 
 impl CompressedState {
-    fn compress_pinned_flavor ( & mut self , source : & CpcSketch ) requires source . coder_wf ( ) , source . sliding_window @ . len ( ) == source . k ( ) , source . window_offset == 0 , ensures final ( self ) . window_data_words <= final ( self ) . window_data @ . len ( ) , final ( self ) . window_data @ . len ( ) > 0 ,
+    fn compress_pinned_flavor ( & mut self , source : & CpcSketch ) requires source . coder_wf ( ) , source . sliding_window @ . len ( ) == source . k ( ) , source . window_offset == 0 , ensures
+/*@C18.cpc.coder_window_words_u32*/ final ( self ) . window_data @ . len ( ) <= 0xffff_ffff ,
+/*@C18.cpc.coder_table_words_u32*/ source . surprising_value_table -> 0 . num_items > 0 ==> 0 < final ( self ) . table_data @ . len ( ) <= 0xffff_ffff , final ( self ) . window_data_words <= final ( self ) . window_data @ . len ( ) , final ( self ) . window_data @ . len ( ) > 0 ,
 /*@C12.cpc.coder_pinned_window*/ is_window_image ( final ( self ) . window_words ( ) , pseudo_phase_spec ( source . lg_k , source . num_coupons ) , source . sliding_window @ ) , source . surprising_value_table -> 0 . num_items == 0 ==> final ( self ) . table_data == old ( self ) . table_data && final ( self ) . table_data_words == old ( self ) . table_data_words && final ( self ) . table_num_entries == old ( self ) . table_num_entries , source . surprising_value_table -> 0 . num_items > 0 ==> final ( self ) . table_data_words <= final ( self ) . table_data @ . len ( ) &&
 /*@C12.cpc.coder_pinned_table*/ table_image_of ( final ( self ) . table_words ( ) , final ( self ) . table_num_entries , source . lg_k , shift_cols ( source . tbl ( ) ) ) , {
 self . compress_sliding_window ( & source . sliding_window , source . lg_k ( ) , source . num_coupons ( ) ) ;
@@ -1978,6 +2073,7 @@ self . compress_surprising_values ( & pairs , source . lg_k ( ) ) ;
 }
 
 
+
     fn uncompress_pinned_flavor ( & self , lg_k : u8 , num_coupons : u32 ) -> ( r : UncompressedState ) requires 4 <= lg_k <= 26 , self . window_data @ . len ( ) > 0 ,
 /*@C13.cpc.coder_window_valid*/ self . window_valid ( lg_k , num_coupons ) , self . table_num_entries > 0 ==> self . table_data @ . len ( ) > 0 &&
 /*@C13.cpc.coder_table_valid*/ self . table_valid ( lg_k ) &&
@@ -2036,6 +2132,7 @@ PairTable :: from_slots ( lg_k , num_pairs , pairs ) }
 UncompressedState {
 table , window }
 }
+
 
 }
 
@@ -2098,6 +2195,7 @@ lemma_shr_i64 ( tmp , ( lg_k + 3 ) as u8 ) ;
 
 
 
+
 // ---------- sliding flavor: window at columns offset..offset+8; every table column is rotated into 0..56 and permuted ----------
 spec fn perm_enc(phase: int) -> Seq<u8> { sp_perm_enc()@[phase]@ }
 spec fn perm_dec(phase: int) -> Seq<u8> { sp_perm_dec()@[phase]@ }
@@ -2147,7 +2245,8 @@ proof fn lemma_rc_parts(row: u32, col: u8) requires col <= 63, row <= 0x3ff_ffff
     let c = col as u32;
     assert(c <= 63 && row <= 0x3ff_ffff ==> (((row << 6) | c) >> 6) == row && (((row << 6) | c) & 63) == c) by (bit_vector);
 }
-proof fn lemma_row_small(p: u32) ensures (p >> 6) <= 0x3ff_ffff, (((p >> 6) << 6) | (p & 63)) == p, (p & 63) <= 63 {
+proof fn lemma_row_small(p: u32) ensures (p >> 6) <= 0x3ff_ffff, (((p >> 6) << 6) | (p & 63)) == p, (p & 63) <= 63, p % 64 == p & 63, p / 64 == p >> 6 {
+    lemma_bridge_u32(p);
     assert((p >> 6) <= 0x3ff_ffff && (((p >> 6) << 6) | (p & 63)) == p && (p & 63) <= 63) by (bit_vector);
 }
 // the decoder's column formula inverts the encoder's on every coupon outside the window, and vice versa
@@ -2186,7 +2285,9 @@ proof fn lemma_slide_enc_dec(q: u32, offset: u8, pe: Seq<u8>, pd: Seq<u8>)
 impl CompressedState {
     // Complicated by the existence of both a left fringe and a right fringe.
     fn compress_sliding_flavor ( & mut self , source : & CpcSketch ) requires source . coder_wf ( ) , source . sliding_window @ . len ( ) == source . k ( ) ,
-/*@C17.cpc.coder_phase_perm_index*/ 1000 * ( source . num_coupons as int ) >= 2375 * source . k ( ) , ensures final ( self ) . window_data_words <= final ( self ) . window_data @ . len ( ) , final ( self ) . window_data @ . len ( ) > 0 ,
+/*@C17.cpc.coder_phase_perm_index*/ 1000 * ( source . num_coupons as int ) >= 2375 * source . k ( ) , ensures
+/*@C18.cpc.coder_window_words_u32*/ final ( self ) . window_data @ . len ( ) <= 0xffff_ffff ,
+/*@C18.cpc.coder_table_words_u32*/ source . surprising_value_table -> 0 . num_items > 0 ==> 0 < final ( self ) . table_data @ . len ( ) <= 0xffff_ffff , final ( self ) . window_data_words <= final ( self ) . window_data @ . len ( ) , final ( self ) . window_data @ . len ( ) > 0 ,
 /*@C12.cpc.coder_sliding_window*/ is_window_image ( final ( self ) . window_words ( ) , pseudo_phase_spec ( source . lg_k , source . num_coupons ) , source . sliding_window @ ) , source . surprising_value_table -> 0 . num_items == 0 ==> final ( self ) . table_data == old ( self ) . table_data && final ( self ) . table_data_words == old ( self ) . table_data_words && final ( self ) . table_num_entries == old ( self ) . table_num_entries , source . surprising_value_table -> 0 . num_items > 0 ==> final ( self ) . table_data_words <= final ( self ) . table_data @ . len ( ) &&
 /*@C12.cpc.coder_sliding_table*/ table_image_of ( final ( self ) . table_words ( ) , final ( self ) . table_num_entries , source . lg_k , slide_set ( source . tbl ( ) , source . window_offset , perm_enc ( pseudo_phase_spec ( source . lg_k , source . num_coupons ) ) ) ) , {
 self . compress_sliding_window ( & source . sliding_window , source . lg_k ( ) , source . num_coupons ( ) ) ;
@@ -2271,6 +2372,7 @@ self . compress_surprising_values ( & pairs , source . lg_k ( ) ) ;
 }
 
 
+
     fn uncompress_sliding_flavor ( & self , lg_k : u8 , num_coupons : u32 ) -> ( r : UncompressedState ) requires 4 <= lg_k <= 26 , self . window_data @ . len ( ) > 0 ,
 /*@C13.cpc.coder_window_valid*/ self . window_valid ( lg_k , num_coupons ) , self . table_num_entries > 0 ==> self . table_data @ . len ( ) > 0 &&
 /*@C13.cpc.coder_table_valid*/ self . table_valid ( lg_k ) &&
@@ -2352,6 +2454,7 @@ UncompressedState {
 table , window }
 }
 
+
 }
 
 // C11 for the sliding table half: the image of the rotated + permuted set decodes (after the inverse permutation and rotation) to the original set
@@ -2415,9 +2518,11 @@ Flavor :: Sliding }
 
 
 
+
 impl CpcSketch {
     fn flavor ( & self ) -> ( r : Flavor ) requires 4 <= self . lg_k <= 26 ensures r == flavor_spec ( self . lg_k , self . num_coupons ) {
 determine_flavor ( self . lg_k , self . num_coupons ) }
+
 
 }
 
@@ -2434,7 +2539,8 @@ proof fn lemma_set_bit8(b: u8, c: u32, c2: int) requires c < 8, 0 <= c2 < 8
     let d = c2 as u8;
     assert(c < 8 && d < 8 ==> ((((b | (1u8 << c)) >> d) & 1 == 1) == (((b >> d) & 1 == 1) || d == c))) by (bit_vector);
 }
-proof fn lemma_rc_of(x: u32) ensures rc((x >> 6) as int, (x & 63) as int) == x, (x & 63) <= 63, (x >> 6) <= 0x3ff_ffff {
+proof fn lemma_rc_of(x: u32) ensures rc((x >> 6) as int, (x & 63) as int) == x, (x & 63) <= 63, (x >> 6) <= 0x3ff_ffff, x % 64 == x & 63, x / 64 == x >> 6 {
+    lemma_bridge_u32(x);
     assert((((x >> 6) << 6) | (x & 63)) == x && (x & 63) <= 63 && (x >> 6) <= 0x3ff_ffff) by (bit_vector);
 }
 proof fn lemma_rc_parts2(row: int, col: int) requires 0 <= row <= 0x3ff_ffff, 0 <= col <= 63 ensures (rc(row, col) >> 6) == row, (rc(row, col) & 63) == col {
@@ -2443,6 +2549,9 @@ proof fn lemma_rc_parts2(row: int, col: int) requires 0 <= row <= 0x3ff_ffff, 0 
 }
 
 impl CompressedState {
+    // own solver instance: the last step (from_slots' membership clause against the d/src bookkeeping) is sensitive to the context of the
+    // other 290 functions; it verifies in isolation (`--verify-function`) in every configuration tried
+    #[verifier::spinoff_prover]
     fn uncompress_hybrid_flavor ( & self , lg_k : u8 ) -> ( r : UncompressedState ) requires 4 <= lg_k <= 26 , self . window_data @ . len ( ) == 0 && self . table_data @ . len ( ) > 0 ,
 /*@C13.cpc.coder_table_valid*/ self . table_valid ( lg_k ) , ensures r . table . wf ( ) , r . table . num_valid_bits == 6 + lg_k , r . window @ . len ( ) == k_of ( lg_k ) ,
 /*@C13.cpc.coder_hybrid_window_decoded*/ forall | row : int , col : int | 0 <= row < k_of ( lg_k ) && 0 <= col < 8 ==> ( # [ trigger ] wbit ( r . window @ , row , col ) <==> self . table_decoded ( lg_k ) . contains ( rc ( row , col ) ) ) ,
@@ -2481,9 +2590,9 @@ lemma_rc_of ( row_col ) ;
 if col < 8 {
 let row = row_col >> 6 ;
 let ghost w0 = window @ ;
-window [ row as usize ] |= 1 << col ;
+let ghost w1 = w0 . update ( row as int , w0 [ row as int ] | ( 1u8 << col ) ) ;
 proof {
-assert forall | r2 : int , c2 : int | 0 <= r2 < window @ . len ( ) && 0 <= c2 < 8 implies ( # [ trigger ] wbit ( window @ , r2 , c2 ) <==> exists | t : int | 0 <= t < i + 1 && # [ trigger ] d [ t ] == rc ( r2 , c2 ) ) by {
+assert forall | r2 : int , c2 : int | 0 <= r2 < w1 . len ( ) && 0 <= c2 < 8 implies ( # [ trigger ] wbit ( w1 , r2 , c2 ) <==> exists | t : int | 0 <= t < i + 1 && # [ trigger ] d [ t ] == rc ( r2 , c2 ) ) by {
 if r2 == row {
 lemma_set_bit8 ( w0 [ r2 ] , col , c2 ) ;
 }
@@ -2503,6 +2612,7 @@ assert ( d [ i as int ] == rc ( r2 , c2 ) ) ;
 }
 }
 }
+window [ row as usize ] |= 1 << col ;
 }
 else {
 pairs [ next_true_pair as usize ] = row_col ;
@@ -2566,6 +2676,7 @@ assert ( 0 <= t < n && d [ t ] == rc ( row , col ) ) ;
 UncompressedState {
 table : PairTable :: from_slots ( lg_k , next_true_pair , pairs ) , window , }
 }
+
 
 }
 
@@ -2851,7 +2962,9 @@ proof fn lemma_merge_pre(tp: Seq<u32>, tbl: ISet<u32>, ws: Seq<u32>, w: Seq<u8>)
 
 impl CompressedState {
     fn compress_hybrid_flavor ( & mut self , source : & CpcSketch ) requires source . coder_wf ( ) , source . sliding_window @ . len ( ) == source . k ( ) , source . window_offset == 0 , 1 <= source . num_coupons , 2 * source . num_coupons < source . k ( ) ,
-/*@C17.cpc.coder_hybrid_count*/ source . num_coupons == source . surprising_value_table -> 0 . num_items + win_count ( source . sliding_window @ , source . k ( ) ) , ensures final ( self ) . window_data == old ( self ) . window_data , final ( self ) . window_data_words == old ( self ) . window_data_words , final ( self ) . table_data_words <= final ( self ) . table_data @ . len ( ) , final ( self ) . table_data @ . len ( ) > 0 ,
+/*@C17.cpc.coder_hybrid_count*/ source . num_coupons == source . surprising_value_table -> 0 . num_items + win_count ( source . sliding_window @ , source . k ( ) ) , ensures
+/*@C18.cpc.coder_table_words_u32*/ final ( self ) . table_data @ . len ( ) <= 0xffff_ffff ,
+/*@C12.cpc.coder_hybrid_entries*/ final ( self ) . table_num_entries == source . num_coupons , final ( self ) . window_data == old ( self ) . window_data , final ( self ) . window_data_words == old ( self ) . window_data_words , final ( self ) . table_data_words <= final ( self ) . table_data @ . len ( ) , final ( self ) . table_data @ . len ( ) > 0 ,
 /*@C12.cpc.coder_hybrid_image*/ table_image_of ( final ( self ) . table_words ( ) , final ( self ) . table_num_entries , source . lg_k , hybrid_set ( source . tbl ( ) , source . sliding_window @ ) ) , {
 debug_assert! ( ! source . sliding_window . is_empty ( ) ) ;
 debug_assert! ( source . window_offset == 0 ) ;
@@ -2974,6 +3087,7 @@ lemma_merge_final ( all_pairs @ , tp , ws , tbl , w , source . lg_k ) ;
 self . compress_surprising_values ( & all_pairs , source . lg_k ( ) ) ;
 }
 
+
 }
 
 // =====================================================================================================================
@@ -2994,6 +3108,15 @@ impl CpcSketch {
 }
 spec fn cs_is_default(c: CompressedState) -> bool {
     c.table_data@.len() == 0 && c.table_data_words == 0 && c.table_num_entries == 0 && c.window_data@.len() == 0 && c.window_data_words == 0
+}
+// the SHAPE of what `compress` leaves (its debug_asserts and the buffer discipline): flags fit the flavor, the used-word counts fit the
+// u32 fields of the image.  This is what unit cpc_codec's `serialize` needs of `compress` besides compress_image.
+spec fn coder_shape(fl: Flavor, c: CompressedState) -> bool {
+    &&& c.table_data_words <= c.table_data@.len() && c.window_data_words <= c.window_data@.len()
+    &&& c.table_data_words <= 0xffff_ffff && c.window_data_words <= 0xffff_ffff
+    &&& fl is Empty ==> cs_is_default(c)
+    &&& (fl is Sparse || fl is Hybrid) ==> c.window_data@.len() == 0 && c.table_data@.len() > 0
+    &&& (fl is Pinned || fl is Sliding) ==> c.window_data@.len() > 0 && (c.table_num_entries > 0 ==> c.table_data@.len() > 0)
 }
 // C12 for the coder: what `compress` leaves in a default CompressedState, per flavor
 spec fn compress_image(c: CompressedState, s: CpcSketch) -> bool {
@@ -3034,9 +3157,75 @@ spec fn decoded_as(r: UncompressedState, c: CompressedState, lg_k: u8, nc: u32) 
     &&& fl is Sliding && n > 0 ==> forall|x: u32| #[trigger] r.table.items().contains(x) <==> unslide_has(d, dco(lg_k, nc) as u8, perm_dec(pseudo_phase_spec(lg_k, nc)), x)
 }
 
+// ---------- the SHAPE of a decoded state (what unit cpc_codec's parser needs of `uncompress` besides decoded_as) ----------
+proof fn lemma_dec_pairs_len(dec: Seq<u16>, nbb: int, s: Seq<bool>, n: int, prow: u32, pcol: u8)
+  requires n >= 0 ensures dec_pairs(dec, nbb, s, n, prow, pcol).len() == n decreases n
+{
+    if n == 0 { lemma_dec_pairs_zero(dec, nbb, s, prow, pcol); }
+    else {
+        lemma_dec_pairs_step(dec, nbb, s, n, prow, pcol);
+        let row = dec_pair_row(dec, nbb, s, prow) as u32; let col = dec_pair_col(dec, nbb, s, pcol) as u8;
+        lemma_dec_pairs_len(dec, nbb, dec_pair_rest(dec, nbb, s), n - 1, row, (col + 1) as u8);
+    }
+}
+proof fn lemma_dec_bytes_len(dec: Seq<u16>, s: Seq<bool>, n: int) requires n >= 0 ensures dec_bytes(dec, s, n).len() == n decreases n {
+    if n > 0 { let e = dec[peek12(s) as int]; lemma_dec_bytes_len(dec, s.skip((e >> 8) as int), n - 1); }
+}
+// below the sliding flavor the window has not moved
+proof fn lemma_dco_small(lg_k: u8, c: u32) requires 4 <= lg_k <= 26 ensures 8 * (c as int) < 27 * pow2(lg_k as nat) ==> dco(lg_k, c) == 0 {
+    lemma_k_bound(lg_k);
+    let k = pow2(lg_k as nat) as int; let t = 8 * (c as int) - 19 * k;
+    if 8 * (c as int) < 27 * k && t >= 0 { assert(t / (8 * k) == 0) by (nonlinear_arith) requires 0 <= t < 8 * k, k > 0; }
+}
+// no decoded table entry lies inside the window columns [offset, offset + 8): hybrid keeps columns >= 8 (offset 0), pinned adds 8 to a
+// column < 56 (offset 0), sliding rotates a canonical column < 56 by offset + 8
+proof fn lemma_decoded_cols(r: UncompressedState, c: CompressedState, lg_k: u8, nc: u32)
+  requires image_valid(c, lg_k, nc), decoded_as(r, c, lg_k, nc), r.window@.len() != 0, dco(lg_k, nc) <= 56
+  ensures forall|x: u32| r.table.items().contains(x) ==> !(dco(lg_k, nc) <= (x & 63) < dco(lg_k, nc) + 8)
+{
+    let fl = flavor_spec(lg_k, nc); let n = c.table_num_entries as int; let d = c.table_decoded(lg_k); let off = dco(lg_k, nc);
+    lemma_k_bound(lg_k); lemma_dco_small(lg_k, nc); lemma_phase_range(lg_k, nc);
+    lemma_dec_pairs_len(llu_dec(), c.nbb(lg_k), words_bits(c.table_data@), n, 0, 0);
+    assert(d.len() == n);
+    assert forall|x: u32| r.table.items().contains(x) implies !(off <= (x & 63) < off + 8) by {
+        if fl is Hybrid {
+            assert(off == 0); assert(d.contains(x) && (x & 63) >= 8);
+        } else if fl is Pinned {
+            assert(off == 0);
+            if n > 0 {
+                assert(unshift_has(d, x));
+                let y = (x - 8) as u32;
+                let i = choose|i: int| 0 <= i < d.len() && d[i] == y;
+                assert((d[i] & 63) < 56);
+                lemma_plus8(y);
+            }
+        } else if fl is Sliding {
+            if n > 0 {
+                let phase = pseudo_phase_spec(lg_k, nc); let pe = perm_enc(phase); let pd = perm_dec(phase); let o8 = off as u8;
+                assert(unslide_has(d, o8, pd, x));
+                let i = choose|i: int| 0 <= i < d.len() && slide_dec(#[trigger] d[i], o8, pd) == x;
+                let q = d[i];
+                assert((q & 63) < 56);
+                reveal(slide_dec);
+                lemma_perm_pair(phase);
+                lemma_row_small(q);
+                lemma_perm_at(pe, pd, (q & 63) as int);
+                let c2 = pd[((q & 63) as u8) as int];
+                lemma_unrot(c2, o8);
+                let col = ((c2 + (o8 + 8)) as u8) & 63;
+                lemma_rc_parts(q >> 6, col);
+                assert((x & 63) == col);
+            }
+        }
+    }
+}
+
 impl CompressedState {
     fn compress ( & mut self , source : & CpcSketch ) requires cs_is_default ( * old ( self ) ) , source . compress_wf ( ) , ensures
-/*@C12.cpc.coder_compress_image*/ compress_image ( * final ( self ) , * source ) , {
+/*@C12.cpc.coder_compress_image*/ compress_image ( * final ( self ) , * source ) ,
+/*@C12.cpc.coder_compress_shape*/ coder_shape ( flavor_spec ( source . lg_k , source . num_coupons ) , * final ( self ) ) ,
+/*@C12.cpc.coder_compress_entries*/ flavor_spec ( source . lg_k , source . num_coupons ) is Sparse ==> final ( self ) . table_num_entries == source . surprising_value_table -> 0 . num_items ,
+/*@C12.cpc.coder_compress_entries*/ flavor_spec ( source . lg_k , source . num_coupons ) is Hybrid ==> final ( self ) . table_num_entries == source . num_coupons , {
 proof {
 lemma_k_bound ( source . lg_k ) ;
 }
@@ -3065,17 +3254,31 @@ debug_assert! ( ! self . window_data . is_empty ( ) ) ;
 }
 
 
+
     fn uncompress ( & self , lg_k : u8 , num_coupons : u32 ) -> ( r : UncompressedState ) requires
 /*@C13.cpc.coder_image_valid*/ image_valid ( * self , lg_k , num_coupons ) , ensures
-/*@C13.cpc.coder_uncompress_decoded*/ decoded_as ( r , * self , lg_k , num_coupons ) , {
+/*@C13.cpc.coder_uncompress_decoded*/ decoded_as ( r , * self , lg_k , num_coupons ) ,
+/*@C13.cpc.coder_uncompress_window_len*/ r . window @ . len ( ) == ( if flavor_spec ( lg_k , num_coupons ) is Empty || flavor_spec ( lg_k , num_coupons ) is Sparse {
+0 }
+else {
+pow2 ( lg_k as nat ) as int }
+) ,
+/*@C13.cpc.coder_uncompress_counts*/ flavor_spec ( lg_k , num_coupons ) is Empty ==> r . table . num_items == 0 ,
+/*@C13.cpc.coder_uncompress_counts*/ flavor_spec ( lg_k , num_coupons ) is Sparse ==> r . table . num_items == self . table_num_entries ,
+/*@C13.cpc.coder_uncompress_table_cols*/ dco ( lg_k , num_coupons ) <= 56 && r . window @ . len ( ) != 0 ==> forall | x : u32 | r . table . items ( ) . contains ( x ) ==> ! ( dco ( lg_k , num_coupons ) <= ( x & 63 ) < dco ( lg_k , num_coupons ) + 8 ) , {
 proof {
 lemma_k_bound ( lg_k ) ;
+lemma_dec_bytes_len ( byte_dec ( pseudo_phase_spec ( lg_k , num_coupons ) ) , words_bits ( self . window_data @ ) , k_of ( lg_k ) ) ;
+assert forall | r : UncompressedState | # [ trigger ] decoded_as ( r , * self , lg_k , num_coupons ) && r . window @ . len ( ) != 0 && dco ( lg_k , num_coupons ) <= 56 implies ( forall | x : u32 | r . table . items ( ) . contains ( x ) ==> ! ( dco ( lg_k , num_coupons ) <= ( x & 63 ) < dco ( lg_k , num_coupons ) + 8 ) ) by {
+lemma_decoded_cols ( r , * self , lg_k , num_coupons ) ;
+}
 }
 match determine_flavor ( lg_k , num_coupons ) {
 Flavor :: Empty => UncompressedState {
 table : PairTable :: new ( 2 , lg_k + 6 ) , window : vec! [ ] , }
 , Flavor :: Sparse => self . uncompress_sparse_flavor ( lg_k ) , Flavor :: Hybrid => self . uncompress_hybrid_flavor ( lg_k ) , Flavor :: Pinned => self . uncompress_pinned_flavor ( lg_k , num_coupons ) , Flavor :: Sliding => self . uncompress_sliding_flavor ( lg_k , num_coupons ) , }
 }
+
 
 }
 
